@@ -14,6 +14,7 @@ TRUSTED_BASE = [
     'deadlines never expire during a run: Timeout values are whole hours, the observed Deadline() is rounded to hours; IEEE rounding is excluded by dyadic multipliers and intervals < 2^40 ns',
     'Simple/Model.v is hand-written from message/router/middleware/{timeout,correlation,recoverer,ignore_errors,instant_ack,throttle,circuit_breaker,delay_on_error,retry}.go and tied to them by this check',
     'a metadata key holding "" is not distinguished from a missing key (Metadata.Get); produced messages of one call are distinct objects',
+    'RandomFail / RandomPanic: the draw rand.Float32() <= p is an oracle bit of the model; in the runs math/rand is seeded before every invocation and the draw is mirrored with rand.New(rand.NewSource(k)) (same generator, go 1.23)',
 ]
 ASSUMPTIONS = [
     'DelayOnError schedule theorem: 0 <= InitialInterval <= MaxInterval, Multiplier = num/den >= 1; the closed form min(Initial*m^(k-1), Max) is proved where the products are whole nanoseconds, otherwise the per-step law (multiply, round down to a whole ns, cap) and the upper bound',
